@@ -27,8 +27,8 @@ import (
 //     throw-away cache context and transformed through the public gRPC query
 //     EvmKeeper.GetValsetByID (= transformSnapshotToCompass); the quorum test
 //     (isEnoughToReachConsensus) is observed through EvmKeeper.PublishValsetToChain.  No repo
-//     hook is needed.  When c10_export_test.go is present (needs tools/patches/
-//     c10_verif_export.patch) the unexported functions are additionally called directly.
+//     hook is needed; c10_export_test.go additionally calls the unexported functions directly
+//     (x/evm/keeper/verif_export.go, build tag verif).
 //   - keeper layer: histories of staking changes, external-account registrations, chain
 //     support / activation / removal, TriggerSnapshotBuild, SetSnapshotOnChain,
 //     just-in-time valset updates and 31-day time jumps; after EVERY op every snapshot id is
@@ -192,50 +192,80 @@ func c10FloorKey(floor *big.Int, got uint64) string {
 func c10IsEvm(t string) bool { return strings.ToLower(t) == "evm" }
 
 // c10CheckValset evaluates the clauses of the property about the valset for one chain directly
-// on (snapshot, observed valset): every listed address belongs to a snapshot validator with an
-// (EVM) account on the chain, every such validator is listed exactly once, power =
-// floor(share*2^32/total), powers sum to at most 2^32.
+// on (snapshot, observed valset): every snapshot validator with an (EVM) account on the chain is
+// listed EXACTLY ONCE, under one of its accounts there (a validator with two accounts must not be
+// listed or counted twice), nobody else is listed, power = floor(share*2^32/total), entries are
+// ordered by descending power, powers sum to at most 2^32.
 func c10CheckValset(r *Rec, snap *valsettypes.Snapshot, ref string, v *evmtypes.Valset, replay interface{}) {
 	if len(v.Validators) != len(v.Powers) {
 		c10Hit(r, "restricted_to_chain", "shape", fmt.Sprintf("valset %d for %s: %d addresses, %d powers", v.ValsetID, ref, len(v.Validators), len(v.Powers)), replay)
 		return
 	}
 	total := snap.TotalShares.BigInt()
-	type exp struct {
-		power *big.Int
-		n     int
-	}
-	want := map[string]*exp{}
-	dup := false
-	for _, val := range snap.Validators {
-		n := 0
+	// remote address -> snapshot validators holding it on this chain (normally one; two
+	// validators can share an address when they register it under "evm" and "EVM": the
+	// collision test compares chain types case-sensitively)
+	owners := map[string][]int{}
+	naccts := make([]int, len(snap.Validators))
+	listed := make([]int, len(snap.Validators))
+	for i, val := range snap.Validators {
+		seen := map[string]bool{}
 		for _, e := range val.ExternalChainInfos {
 			if c10IsEvm(e.ChainType) && e.ChainReferenceID == ref {
-				n++
-				if _, ok := want[e.Address]; !ok {
-					want[e.Address] = &exp{power: c10Floor(val.ShareCount.BigInt(), total)}
+				naccts[i]++
+				if !seen[e.Address] {
+					seen[e.Address] = true
+					owners[e.Address] = append(owners[e.Address], i)
 				}
 			}
 		}
-		if n > 1 {
-			dup = true
-			c10Hit(r, "restricted_to_chain", "two-accounts", fmt.Sprintf("validator with %d accounts on %s is listed %d times in valset %d", n, ref, n, v.ValsetID), replay)
+		if naccts[i] > 1 {
+			r.Stat("valset.validator-with-two-accounts")
 		}
 	}
-	for i, a := range v.Validators {
-		e, ok := want[a]
-		if !ok {
+	for j, a := range v.Validators {
+		os := owners[a]
+		if len(os) == 0 {
 			c10Hit(r, "restricted_to_chain", "foreign-address", fmt.Sprintf("valset %d for %s lists %s which is no account of a snapshot validator on that chain", v.ValsetID, ref, a), replay)
 			continue
 		}
-		e.n++
-		if e.power.Cmp(new(big.Int).SetUint64(v.Powers[i])) != 0 {
-			c10Hit(r, "powers_floor", c10FloorKey(e.power, v.Powers[i]), fmt.Sprintf("share·2^32/total floors to %s but power is %d (valset %d, chain %s, total %s)", e.power, v.Powers[i], v.ValsetID, ref, total), replay)
+		if len(os) > 1 {
+			r.Stat("valset.shared-address")
+		}
+		// attribute the entry to a holder not yet listed, preferring one whose floor is this power
+		got := new(big.Int).SetUint64(v.Powers[j])
+		i := -1
+		for _, o := range os {
+			if listed[o] == 0 && c10Floor(snap.Validators[o].ShareCount.BigInt(), total).Cmp(got) == 0 {
+				i = o
+				break
+			}
+		}
+		if i < 0 {
+			for _, o := range os {
+				if listed[o] == 0 {
+					i = o
+					break
+				}
+			}
+		}
+		if i < 0 {
+			i = os[0]
+		}
+		listed[i]++
+		want := c10Floor(snap.Validators[i].ShareCount.BigInt(), total)
+		if want.Cmp(got) != 0 {
+			c10Hit(r, "powers_floor", c10FloorKey(want, v.Powers[j]), fmt.Sprintf("share·2^32/total floors to %s but power is %d (valset %d, chain %s, total %s)", want, v.Powers[j], v.ValsetID, ref, total), replay)
 		}
 	}
-	for a, e := range want {
-		if e.n == 0 {
-			c10Hit(r, "restricted_to_chain", "missing", fmt.Sprintf("valset %d for %s misses %s", v.ValsetID, ref, a), replay)
+	twice := false
+	for i := range snap.Validators {
+		switch {
+		case naccts[i] > 0 && listed[i] == 0:
+			c10Hit(r, "restricted_to_chain", "missing", fmt.Sprintf("valset %d for %s misses validator #%d which has an account there", v.ValsetID, ref, i), replay)
+		case listed[i] > 1:
+			twice = true
+			c10Hit(r, "restricted_to_chain", "two-accounts", fmt.Sprintf("validator #%d with %d accounts on %s is listed %d times in valset %d", i, naccts[i], ref, listed[i], v.ValsetID), replay)
 		}
 	}
 	for i := 1; i < len(v.Powers); i++ {
@@ -244,10 +274,12 @@ func c10CheckValset(r *Rec, snap *valsettypes.Snapshot, ref string, v *evmtypes.
 			break
 		}
 	}
-	if sum := c10PowerSum(v); sum.Cmp(c10Two32) > 0 && !dup {
-		c10Hit(r, "powers_sum_le", "sum", fmt.Sprintf("powers of valset %d for %s sum to %s > 2^32", v.ValsetID, ref, sum), replay)
-	} else if sum.Cmp(c10Two32) > 0 {
-		c10Hit(r, "powers_sum_le", "two-accounts", fmt.Sprintf("powers of valset %d for %s sum to %s > 2^32 (a validator has two accounts on the chain)", v.ValsetID, ref, sum), replay)
+	if sum := c10PowerSum(v); sum.Cmp(c10Two32) > 0 {
+		key := "sum"
+		if twice {
+			key = "two-accounts"
+		}
+		c10Hit(r, "powers_sum_le", key, fmt.Sprintf("powers of valset %d for %s sum to %s > 2^32", v.ValsetID, ref, sum), replay)
 	}
 }
 
